@@ -106,8 +106,8 @@ def _pairs_in(f, T, P):
             partner = None
             while j < len(sts):
                 s2 = _store(sts[j])
-                if s2 is None or not _pure(s2[2], ()):
-                    break
+                if s2 is None or not _pure(s2[2], (T,)):
+                    break                   # (between the two halves T is out of step: nothing may read it there)
                 if s2[0] in (T, P):
                     if s2[0] != st[0]:
                         partner = j
